@@ -21,5 +21,7 @@ if not lb['ok']:
     print(lb['out'][-4000:]); sys.exit(1)
 hb = core.build_harness('asan')
 print('harness:', hb['ok'], hb['out'][-2000:])
+hb2 = core.build_harness('asanrel')
+print('harness (release configuration):', hb2['ok'], hb2['out'][-2000:])
 print('setup done in %.0fs' % (time.time() - t0))
-sys.exit(0 if hb['ok'] else 1)
+sys.exit(0 if hb['ok'] and hb2['ok'] else 1)
